@@ -189,6 +189,9 @@ struct FaultPlan {
     fired_error: bool,
     fired_crash: bool,
     fired_stale: bool,
+    /// an explicit `sync()` is being executed / the injected error hit a call made by it
+    in_sync: bool,
+    error_in_sync: bool,
     log: Vec<String>,
     /// Some while a `Join` is being executed
     join: Option<JoinPlan>,
@@ -298,6 +301,7 @@ impl FaultyStore {
         p.log.push(what.to_string());
         if p.fail_at == Some(n) {
             p.fired_error = true;
+            p.error_in_sync = p.in_sync;
             return Gate::Fail;
         }
         if p.crash_at == Some(n) {
@@ -823,6 +827,8 @@ fn run_request(w: &mut World<'_>, ri: usize, req: &Req, shape: &str) {
         p.fired_error = false;
         p.fired_crash = false;
         p.fired_stale = false;
+        p.in_sync = false;
+        p.error_in_sync = false;
         p.join = None;
         p.log.clear();
         match req.fault {
@@ -924,9 +930,9 @@ fn run_request(w: &mut World<'_>, ri: usize, req: &Req, shape: &str) {
         w.out.count(c, 1);
     }
     w.out.violations.extend(vio);
-    let (fired_error, fired_crash, fired_stale, store_calls) = {
+    let (fired_error, fired_crash, fired_stale, error_in_sync, store_calls) = {
         let p = w.plan.lock().unwrap();
-        (p.fired_error, p.fired_crash, p.fired_stale, p.log.join(","))
+        (p.fired_error, p.fired_crash, p.fired_stale, p.error_in_sync, p.log.join(","))
     };
     if fired_stale {
         w.out.count("fault_stale_none_answer", 1);
@@ -992,6 +998,13 @@ fn run_request(w: &mut World<'_>, ri: usize, req: &Req, shape: &str) {
             w.out.count("finalize_ok", 1);
             after_success(w, ri, req, rm, session_cookie, shape, t_req_start);
         }
+        (Some(Ok(())), true) if error_in_sync && !fired_crash && !fired_stale && !fired_sql && !crashed && !req.abandon => {
+            // The only fault was a store error under an explicit sync(); the handler carried on and
+            // the request was finalised successfully: a cookie went out, so C11 applies in full —
+            // what the next request sees is what this one ended with.
+            w.out.count("finalize_ok_after_failed_explicit_sync", 1);
+            after_success(w, ri, req, rm, session_cookie, shape, t_req_start);
+        }
         (Some(Ok(())), true) => {
             // a load failed earlier in the request and the handler carried on: treat like a failure
             w.out.count("finalize_ok_after_fault", 1);
@@ -1022,6 +1035,19 @@ fn run_request(w: &mut World<'_>, ri: usize, req: &Req, shape: &str) {
             // crashed / abandoned before or during finalisation: nothing reaches the client
             adopt_after_failure(w, ri, &rm, None, shape);
         }
+    }
+}
+
+/// The n-th value written in a run. Mostly a unique string (so that every read is attributable to
+/// one write); one in seven each is JSON `null`, a unique number, a nested document with a `null`
+/// member and an empty array — shapes a serialisation shortcut might drop or rewrite.
+fn value_for(key: &str, n: u64) -> Value {
+    match n % 7 {
+        2 => Value::Null,
+        4 => Value::from(1_000_000 + n),
+        5 => serde_json::json!({ "m": format!("{key}:{n}"), "z": null, "l": [] }),
+        6 if n % 14 == 6 => Value::String(String::new()),
+        _ => Value::String(format!("{key}:{n}")),
     }
 }
 
@@ -1138,8 +1164,8 @@ async fn apply_op(
         Op::SInsert(k) => {
             let key = SKEYS[*k as usize % 3];
             model.next_val += 1;
-            let val = Value::String(format!("{key}:{}", model.next_val));
-            model.written.entry(key.to_string()).or_default().insert(val.as_str().unwrap().to_string());
+            let val = value_for(key, model.next_val);
+            model.written.entry(key.to_string()).or_default().insert(val.to_string());
             let got = s.insert_raw(key, val.clone()).await;
             let t_hi = seams::clock_ns();
             let Ok(got) = got else {
@@ -1257,7 +1283,7 @@ async fn apply_op(
         Op::CInsert(k) => {
             let key = CKEYS[*k as usize % 2];
             model.next_val += 1;
-            let val = Value::String(format!("{key}:{}", model.next_val));
+            let val = value_for(key, model.next_val);
             let got = s.client_mut().insert_raw(key, val.clone());
             log.push(format!("cinsert {key}={val} -> {got:?}"));
             if rm.srv == Srv::Unknown && s.is_invalidated() {
@@ -1327,8 +1353,21 @@ async fn apply_op(
             // An explicit sync is a durable write in the middle of the request; the reference
             // model does not predict its internals — it re-reads the durable state afterwards
             // (see `explicit_sync_in_request`).
+            plan.lock().unwrap().in_sync = true;
             let r = s.sync().await;
+            let failed_by_fault = {
+                let mut p = plan.lock().unwrap();
+                p.in_sync = false;
+                r.is_err() && p.error_in_sync
+            };
             log.push(format!("sync -> {}", if r.is_ok() { "ok" } else { "err" }));
+            if failed_by_fault {
+                // The store failed under an explicit sync(): the in-request view is untouched (the
+                // request may go on and finalisation will try again), so the model keeps its view
+                // and the rest of the request is checked as strictly as before.
+                counters.push("explicit_sync_failed_by_fault");
+                return;
+            }
             counters.push("explicit_sync");
             if r.is_ok() {
                 if let Srv::Loaded { changed, exists, map } = &mut rm.srv {
@@ -1589,7 +1628,7 @@ fn check_c12_cookie(w: &mut World<'_>, ri: usize, rm: &ReqModel, c: Option<&SetC
                 }
             }
             for v in rm.cli.values() {
-                if let Some(sv) = v.as_str() {
+                if let Some(sv) = v.as_str().filter(|s| !s.is_empty()) {
                     if c.raw_value.contains(sv) {
                         w.out.violations.push(viol("C12", "client-state-encrypted", format!("value visible on the wire (cookie name percent-encoded: {name_rewritten})"), format!("req{ri}: the processor is configured to encrypt `{}` and finalize_session accepted it, yet the emitted value contains the client value {sv} in clear", w.cfg.cookie_name)));
                     }
@@ -1848,7 +1887,7 @@ fn adopt_after_failure(w: &mut World<'_>, ri: usize, rm: &ReqModel, cookie: Opti
     let mut bad = Vec::new();
     for (id, rec) in &w.model.durable {
         for (k, v) in &rec.map {
-            let ok = v.as_str().map(|s| w.model.written.get(k).map(|set| set.contains(s)).unwrap_or(false)).unwrap_or(false);
+            let ok = w.model.written.get(k).map(|set| set.contains(&v.to_string())).unwrap_or(false);
             if !ok {
                 bad.push(format!("{}: {k}={v}", short(id)));
             }
